@@ -384,6 +384,11 @@ def apply_spec(sp, op):
             ls["transform"] = op["t"]
         elif k == "l.parent":
             ls["parent"] = op["to"]
+        elif k == "l.recreate":
+            if ls["spectrum"] is None:
+                # a laser built from scratch cannot take models while it has no spectrum (refused before they are stored):
+                # the re-created node therefore starts without models
+                ls["models"] = 0
         return
     if not k.startswith("b.") or not sp["beams"]:
         return
